@@ -933,6 +933,30 @@ impl<'a> PairCtx<'a> {
                 }
             }
         }
+        // ---- history independence: repeating the operations after all the others gives the same values
+        if m.c07 || m.c08 || m.c09 || m.c15 {
+            if let Some(i) = &ri {
+                if let Ok(again) = guarded(|| a.r.intersect(&b.r)) {
+                    let k2 = again.as_ref().map(|x| bound_key(&x.verif_bounds())).unwrap_or("None".into());
+                    if k2 != i.key {
+                        rep!(m.c07 || m.c15, "history", "-".to_string(), format!("first call {} later call {}", i.key, k2), "the same result for the same operands".into());
+                    }
+                }
+            }
+            if let Some(d) = &rd {
+                if let Ok(again) = guarded(|| a.r.difference(&b.r)) {
+                    let k2 = again.as_ref().map(|x| bound_key(&x.verif_bounds())).unwrap_or("None".into());
+                    if k2 != d.key {
+                        rep!(m.c08 || m.c15, "history", "-".to_string(), format!("first call {} later call {}", d.key, k2), "the same result for the same operands".into());
+                    }
+                }
+            }
+            if let (Some(x), Ok(y)) = (any_ab, guarded(|| a.r.allows_any(&b.r))) {
+                if x != y {
+                    rep!(m.c09, "history", "-".to_string(), format!("first call {} later call {}", x, y), "the same result for the same operands".into());
+                }
+            }
+        }
         (ri.filter(|x| x.r.is_some()), rd.filter(|x| x.r.is_some()))
     }
 
